@@ -4,7 +4,7 @@
    the stored value and returns the new value and the erase flag.
    Statements only; closed by [exact] of lemmas of ArrLemmas.v. *)
 From Coq Require Import NArith ZArith List Bool.
-From LC Require Import gen.HashGen Core Api InvDefs ArrLemmas.
+From LC Require Import gen.HashGen Core Api InvDefs ArrLemmas Stats InsertLemmas Resize Lazy Refine.
 Import ListNotations.
 Local Open Scope N_scope. Local Open Scope bool_scope.
 
@@ -40,3 +40,43 @@ Theorem C17_existing_element_functor_invoked :
   forall fapply f two keep v,
   invoke fapply f two keep v false = Some (fst (fapply f v false), keep && snd (fapply f v false)).
 Proof. intros. unfold invoke. rewrite Bool.andb_false_r. destruct (fapply f v false). reflexivity. Qed.
+(* ---- generated statements (tools/mkprops.py): upsert / uprase_fn (Refine.v) ---- *)
+(* [log_of g v ins] = [] if the functor was not invoked, [RFn v ins] (stored value, context) otherwise;
+   [final_of g v ins] = what the key maps to afterwards (None = erased because the functor returned true). *)
+
+Theorem C17_upsert_uprase_functor_log_and_effect :
+  forall (c : config) (hash : N -> N),
+  cfg_ok c ->
+  forall (mode : bool) (t : table) (k : N) (v : Z) (g : Z -> bool -> option (Z * bool)),
+  nothrow c = true ->
+  good c hash t ->
+  immediate c mode t ->
+  forall (t' : table) (r : exn + bool * list rv * (N * N)),
+  uprase_gen c hash mode t k v g = (t', r) ->
+  (forall v0 : Z,
+  holds (cur t) k v0 ->
+  exists b s : N,
+  r = inr (false, log_of g v0 false, (b, s)) /\
+  good c hash t' /\
+  lim_same t t' /\
+  immediate c mode t' /\
+  bhp (cur t') = bhp (cur t) /\
+  upd_holds (cur t) (cur t') k (final_of g v0 false) /\
+  (forall vf : Z,
+  final_of g v0 false = Some vf ->
+  exists e : entry, bget (cur t') b s = Some e /\ ekey e = k /\ eval e = vf)) /\
+  (~ key_in (cur t) k ->
+  esc c hash t \/
+  (exists e : exn, r = inl e /\ exn_ok c true t t' e /\ evolves c hash t t' /\ immediate c mode t') \/
+  (exists b s : N,
+  r = inr (true, log_of g v true, (b, s)) /\
+  good c hash t' /\
+  lim_same t t' /\
+  immediate c mode t' /\
+  bhp (cur t) <= bhp (cur t') /\
+  upd_holds (cur t) (cur t') k (final_of g v true) /\
+  (forall vf : Z,
+  final_of g v true = Some vf ->
+  exists e : entry, bget (cur t') b s = Some e /\ ekey e = k /\ eval e = vf))).
+Proof. exact uprase_gen_good. Qed.
+Print Assumptions C17_upsert_uprase_functor_log_and_effect.
